@@ -233,6 +233,13 @@ def robustness_stream(ctx):
         c['edit_calendars'] = []
         c['outcome_only'] = True
         names = sorted(set(t['resource'] for t in c['tasks']), key=str)
+        if ctx.rng.random() < 0.2:
+            # every resource is an object of a user-defined class that is not hashable
+            c['unhashable_resources'] = True
+            have = [r['name'] for r in c['resources']]
+            c['resources'] += [{'name': nm, 'cal': sc.wk([0, 1, 2, 3, 4], ['i', 8])} for nm in names if nm not in have]
+            cases.append(c)
+            continue
         if ctx.rng.random() < 0.35:
             # float dust: remaining work such as 0.1 + 0.2 - 0.3 (5.6e-17 hours) - positive, far below any tolerance, and a
             # divisor-side hazard for whoever mixes `== 0` with `> epsilon`; ordinary calendars
